@@ -516,6 +516,26 @@ fn main() {
             jobs.push(Job { data: c, entry: Entry::Patch, bound: 1, compositions: false });
         }
     }
+    // dense markers: 8-byte marker lines alternating with 8-byte kept lines, behind 0..15 filler
+    // bytes - for every stream offset and each of the six ways to split the marker there is a
+    // member with a marker split exactly there (whatever block size an implementation reads in)
+    {
+        let total = run.pick(320 * 1024, 2560 * 1024);
+        for shift in 0..16usize {
+            let mut c: Vec<u8> = vec![];
+            if shift > 0 {
+                c.extend(std::iter::repeat(b'f').take(shift - 1));
+                c.push(b'\n');
+            }
+            let mut i = 0u32;
+            while c.len() < total {
+                c.extend_from_slice(b"$NetBSD\n");
+                c.extend_from_slice(format!("k{:06}\n", i % 1_000_000).as_bytes());
+                i += 1;
+            }
+            jobs.push(Job { data: c, entry: Entry::Patch, bound: 0, compositions: false });
+        }
+    }
     // very long lines (2^k + d bytes, k = 17..=23, thorough 24): the marker at the start, in the
     // middle (just past 2^(k-1)) and at the end of one line; the line must vanish as a whole
     for k in 17..=run.pick(23, 24) as u32 {
@@ -541,7 +561,7 @@ fn main() {
         jobs.push(Job { data: d.clone(), entry: Entry::Patch, bound: if d.len() > 1000 { run.pick(1, 2) } else { 2 }, compositions: small });
         jobs.push(Job { data: d.clone(), entry: Entry::File, bound: if d.len() > 1000 { 0 } else { 1 }, compositions: false });
     }
-    run.bound(format!("{} (input, entry point) jobs x 6 algorithms: lengths 0..={} and KiB boundaries, {} patch inputs; deviation bound 2 (3 for inputs <= 64 bytes in the thorough tier, 1 for multi-KiB inputs in the quick tier); all compositions for inputs <= {} bytes", jobs.len(), l, pi.len(), run.pick(8, 10)));
+    run.bound(format!("{} (input, entry point) jobs x 6 algorithms: lengths 0..={} and KiB boundaries, {} patch inputs, 16 dense-marker patches (a marker split at every stream offset); deviation bound 2 (3 for inputs <= 64 bytes in the thorough tier, 1 for multi-KiB inputs in the quick tier); all compositions for inputs <= {} bytes", jobs.len(), l, pi.len(), run.pick(8, 10)));
     par_items(&run, "C13 schedules", &jobs, |i, job, t| {
         for a in mdigest::ALGOS {
             let want = want_hash(&job.data, a, job.entry);
